@@ -352,7 +352,7 @@ theorem plan_ok_fresh (W : World) (wd L : String) (chain : List String) (r : Inc
 overrides — is already in the chain of files being included, the entry is an error -/
 theorem includeOne_cycle_err (W : World) (wd L : String) (env : Env) (chain : List String) (model : KVs) (r : IncCfg)
     (h : ∃ p, p ∈ r.path ∧ localAbs L p ∈ chain) : includeOne W wd L env chain model r = .err "cycle" := by
-  simp only [includeOne, plan_cycle W wd L chain r h, bind_err]
+  simp only [includeOne, plan_cycle W (baseDir wd L) L chain r h, bind_err]
 
 /-- **include_cycle_err**: a document whose first include entry closes a cycle is rejected, whatever the file
 system, the environment files and the other entries are -/
@@ -619,8 +619,8 @@ theorem includeAll_mono (W : World) (lm : String → String → List String → 
     obtain ⟨pl, hp, h0⟩ := bind_eq_ok h0
     obtain ⟨env', he, h0⟩ := bind_eq_ok h0
     obtain ⟨im, hl, h0⟩ := bind_eq_ok h0
-    have hp' : plan (W.withLoad lm) wd L chain c = .ok pl := hp
-    have he' : includeEnv (W.withLoad lm) wd pl.projDir env c.envFile = .ok env' := by
+    have hp' : plan (W.withLoad lm) (baseDir wd L) L chain c = .ok pl := hp
+    have he' : includeEnv (W.withLoad lm) (baseDir wd L) pl.projDir env c.envFile = .ok env' := by
       rw [includeEnv_withLoad]; exact he
     have hl' : (W.withLoad lm).loadModel pl.relwd pl.projDir pl.paths env' chain = .ok im := hle _ _ _ _ _ _ hl
     simp only [hp', he', hl', h0, bind_ok]
